@@ -149,6 +149,14 @@ class World(WsWorld):
                         self.run.probe("app-op-inside-onMessage")
                         self._app_op(ep)
                 ep.hooks["on_message"] = on_message
+            # ... and from inside the close notification itself (a broadcast that still includes the closing connection, a
+            # farewell message, a second sendClose): the connection is closed by then, nothing may reach the transport
+            if ch.flag("app-op-inside-onClose", 0.2):
+                def on_close(was_clean, code, reason, ep=ep):
+                    self.run.probe("app-op-inside-onClose")
+                    self.ops_left += 1
+                    self._app_op(ep)
+                ep.hooks["on_close"] = on_close
 
     def handshake_pair(self):
         # opening handshake delivered whole (C07/C01 explore its segmentation)
